@@ -334,6 +334,22 @@ func c06Case(unit string, E uint16, phase int64, interf string) (string, *TimedC
 		tc.Steps = append(tc.Steps, TStep{At: tb + 900*ms, Client: 0, Cmd: u})
 		tc.Expect = []Expect{{Req: 3, Kind: "never-expires"}, {Req: 1, Kind: "never-expires"}}
 		tc.Horizon = tb + En + 30*sec
+	case "update-to-unlimited", "relock-to-unlimited", "update-to-65535", "relock-to-65535":
+		// the hold is turned into an unlimited one (flag with an ordinary Expried), or given the longest period there
+		// is, by an update (Rcount changed) or a re-entrant lock 900 ms after the grant: it must outlive its old deadline
+		u := h
+		u.Req = 3
+		if strings.HasPrefix(interf, "update") {
+			u.Flag, u.Rcount = 0x02, 2
+		}
+		if strings.HasSuffix(interf, "unlimited") {
+			u.Expried, u.ExpriedFlag = 100, u.ExpriedFlag|fUnlim
+		} else {
+			u.Expried = 0xffff
+		}
+		tc.Steps = append(tc.Steps, TStep{At: tb + 900*ms, Client: 0, Cmd: u})
+		tc.Expect = []Expect{{Req: 3, Kind: "never-expires"}, {Req: 1, Kind: "never-expires"}}
+		tc.Horizon = tb + En + 30*sec
 	case "update-lengthens":
 		u := h
 		u.Req, u.Flag, u.Expried = 3, 0x02, E*2+3
@@ -483,7 +499,7 @@ func c06Cases(quick bool) []EnumCase {
 		}
 	}
 	for _, ph := range phases {
-		for _, in := range []string{"relock-in-milliseconds", "update-to-milliseconds", "update-to-unlimited-0xffff"} {
+		for _, in := range []string{"relock-in-milliseconds", "update-to-milliseconds", "update-to-unlimited-0xffff", "update-to-unlimited", "relock-to-unlimited", "update-to-65535", "relock-to-65535"} {
 			n, tc := c06Case("s", 5, ph, in)
 			tc.SigSuffix = "/seconds-hold/" + in
 			out = append(out, mkCase(n, tc))
